@@ -30,6 +30,10 @@ def create_app(traceback_string, monitored_files=None):
     if monitored_files:
         monitored_files.sort(key=lambda x: len(x))
     non_site_files = _filter_site_files(monitored_files)
+    if isinstance(traceback_string, type(u'')):
+        # text that cannot be encoded (e.g. lone surrogates from a file name
+        # in the traceback) must not make rendering the page itself fail
+        traceback_string = traceback_string.encode('utf-8', 'backslashreplace').decode('utf-8')
     try:
         parsed_tb = _ParsedTB.from_string(traceback_string)
         parsed_error = parsed_tb.to_dict()
